@@ -232,13 +232,14 @@ CLAIMED = {
     'C01': dict(
         text=('Lean model of every structural operation (copy, slice, apply, subset, rename variable/dimension, insert/remove/'
               'reorder dimension, stack, arithmetic, mask) as functions on files of nested arrays; theorems: tabulated, cell-mapped '
-              'and cell-zipped data always have the declared shape (any rank), mask() and insertDimension return well-formed '
-              'files, removeSingleton/reorderDimensions rebuild every variable in the shape of its new dimension tuple; together '
+              'and cell-zipped data always have the declared shape (any rank); well-formedness is PRESERVED by mask, insertDimension, '
+              'subsetVariables, renameVariable, file arithmetic, reorderDimensions and removeSingleton (mask_wf, insertDim_wf, '
+              'subset_wf, renameVar_wf, binop_wf, reorder_wf, removeSingleton_wf: for all files, any rank); together '
               'with the shape theorems of C02 (selection), C03 (fiberwise) and C04 (concatenation). On every run random SEQUENCES '
               'of 1-6 operations (incl. out-of-domain arguments) are executed on the real code and on the model and compared '
               'completely after every step, and the well-formedness predicate is evaluated on every real intermediate file. '
-              'Two genuine defects repaired by fix: commits.'),
-        note=BASE_NOTE + 'a single WF-preservation theorem over ALL operations is not proved (slice/apply/stack are covered by their array-level shape theorems); interpDimension and eval are exercised in C17/C06, IOAPI-specific well-formedness in C10.',
+              'Three genuine defects repaired by fix: commits.'),
+        note=BASE_NOTE + 'WF-preservation is proved per operation for seven operations; for slice/apply/stack/renameDimension the file-level statement is not proved (their array-level shape theorems are in C02/C03/C04); interpDimension and eval are exercised in C17/C06, IOAPI-specific well-formedness in C10.',
         technique='Lean 4 proof (shape lemmas by mutual structural induction) + model/implementation correspondence over operation sequences + well-formedness oracle',
         design='§7 C01'),
 }
